@@ -47,6 +47,13 @@ def opaque_reason(text, terms=()):
     return None
 
 
+# rules decided by scanning the syntax tree (who may call / who writes / what an except handler
+# does / what a loop iterates): their verdict does not rest on the interpreter's model of the
+# constructs around the site, so an unmodelled construct elsewhere in the file does not weaken it
+FIRM_RULES = {"C14.entropy", "C14.hash-order", "C18.not-swallowed", "C19.shared-global",
+              "C09.order", "C15.loop", "C15.division"}
+
+
 class Checker:
     def __init__(self, pid, tier="quick", seed=0, quiet=False):
         self.pid = pid
@@ -131,7 +138,7 @@ class Checker:
         if not entries:
             return
         for o in self.obligations:
-            if o["status"] != "violation":
+            if o["status"] != "violation" or o["rule"] in FIRM_RULES:
                 continue
             f = (o["loc"] or "").split(":")[0]
             hit = [e for e in entries if f and f in e[3]]
